@@ -3,7 +3,7 @@
    call records about its own input (bk_of) and how answers are formed from them. *)
 From Coq Require Import List Bool.
 From XV Require Import Model.History Gen.T7hist Proofs.C14_proofs Proofs.C14_tie.
-From XV Require Model.Mic Gen.T7mic Proofs.Mic_proofs Proofs.Mic_tie.
+From XV Require Model.Mic Gen.T7mic Proofs.Mic_proofs Proofs.Mic_tie Gen.T7inplace.
 Import ListNotations.
 
 (* after ANY history h, fitting on d and asking the queries q gives exactly the answers of a fresh
@@ -80,3 +80,10 @@ Theorem C14_multiindex_aliased_refuted :
   [None; Some [(0, Mic.Plain [0; 1; 2]); (1, Mic.Plain [0; 1])]; Some Mic_proofs.X1].
 Proof. exact Mic_proofs.aliased_refuted. Qed.
 Print Assumptions C14_multiindex_aliased_refuted.
+
+(* no in-place arithmetic on stored or user arrays: the augmented assignments of the package are exactly the known
+   sites acting on fresh local values (table regenerated from the source by T7inplace) *)
+Theorem C14_no_inplace_arithmetic_on_stored_arrays : List.length T7inplace.inplace_sites = 14%nat /\
+  forallb C14_tie.not_in_fit_algorithm T7inplace.inplace_sites = true.
+Proof. exact (conj (f_equal (@List.length _) C14_tie.inplace_sites_known) (f_equal (forallb _) C14_tie.inplace_sites_known)). Qed.
+Print Assumptions C14_no_inplace_arithmetic_on_stored_arrays.
